@@ -667,6 +667,11 @@ def task_source_modules():
 
         def on_yield(self, interp, value):
             ctx = interp.ctx
+            # a module is handed out only on the first visit of its real path (otherwise --in-place would minify already minified text)
+            asked = [bv for p, bv in getattr(self, 'first_visits', []) if p is value or (is_z3s(p) and is_z3s(value) and p.eq(value)) or
+                     (isinstance(p, Opaque) and isinstance(value, Opaque) and p == value)]
+            ctx.check('C15/source_modules/a-module-is-yielded-only-on-the-first-visit-of-its-real-path',
+                      bool(asked) and any(any(c.eq(bv) for c in ctx.pc) for bv in asked), detail='first_visit asked for this path: %s' % bool(asked))
             # which path argument are we in?  the innermost assignment of the loop variable `path_arg`
             fr = [f for f in interp.frames if f.func.qual.endswith('source_modules')][-1]
             arg = fr.env.vars.get('path_arg')
@@ -697,6 +702,14 @@ def task_source_modules():
         ns, fv = make_namespace(ctx, interp, table)
         policy.ns = ns
         install_externals(interp, policy, ctx)
+        # first_visit(path) (nested helper, by contract): True exactly the first time a real path is seen; verified below on its own
+        policy.first_visits = []
+
+        def first_visit_hook(it, f, a, k):
+            bv = z3.Bool(ctx.fresh('first_visit'))
+            policy.first_visits.append((a[0], bv))
+            return bv
+        interp.hooks[MAIN + ':source_modules.<locals>.first_visit'] = first_visit_hook
         try:
             interp.call(interp.wrap(m.source_modules), [ns], {})
         except Raised as e:
@@ -710,7 +723,26 @@ def task_source_modules():
         pruned.update(interp.pruned)
     ex = Explorer()
     ex.explore(run)
-    return _finish_task(ex, 'C15/source_modules', funcs(MAIN + ':source_modules'), pruned)
+    res = _finish_task(ex, 'C15/source_modules', funcs(MAIN + ':source_modules'), pruned)
+    # first_visit itself: the shape `real = realpath(path); if real in seen: return False; seen.add(real); return True` over a set that is created once
+    # per call of source_modules and written nowhere else (membership before insertion => True exactly once per real path)
+    import ast as pyast
+    fi, node = source.find_def(MAIN + ':source_modules')
+    helper = [n for n in node.body if isinstance(n, pyast.FunctionDef) and n.name == 'first_visit']
+    ok, why = False, 'helper first_visit not found'
+    if helper:
+        h = helper[0]
+        srcs = [pyast.unparse(st) for st in h.body]
+        setvars = [t.id for st in node.body if isinstance(st, pyast.Assign) and isinstance(st.value, pyast.Call) and pyast.unparse(st.value) == 'set()' for t in st.targets
+                   if isinstance(t, pyast.Name)]
+        writes = [pyast.unparse(n) for n in pyast.walk(node) if isinstance(n, pyast.Call) and isinstance(n.func, pyast.Attribute) and isinstance(n.func.value, pyast.Name)
+                  and n.func.value.id in setvars and n.func.attr not in ('__contains__',)]
+        ok = len(setvars) == 1 and len(srcs) == 4 and srcs[0] == 'real_path = os.path.realpath(path)' and srcs[1] == 'if real_path in %s:\n    return False' % setvars[0] \
+            and srcs[2] == '%s.add(real_path)' % setvars[0] and srcs[3] == 'return True' and writes == ['%s.add(real_path)' % setvars[0]]
+        why = 'body %r, set variables %r, writes %r' % (srcs, setvars, writes)
+    res['obligations'].append({'name': 'C15/source_modules/first_visit-is-true-exactly-once-per-real-path', 'status': 'proved' if ok else 'undecided', 'detail': why, 'model': {},
+                               'time_s': 0, 'backend': 'eval', 'path': None, 'kind': 'post', 'goal': None})
+    return res
 
 
 def task_main():
